@@ -14,13 +14,13 @@ import (
 
 // outcome of one execution of one front-end on one input under one delivery schedule.
 type outcome struct {
-	Name     string
-	Docs     []any // delivered documents (single mode: the returned value, if no error)
-	Err      error
-	Panic    any
-	Hung     bool
-	Bounds   []int // where Read results ended
-	Calls    int
+	Name   string
+	Docs   []any // delivered documents (single mode: the returned value, if no error)
+	Err    error
+	Panic  any
+	Hung   bool
+	Bounds []int // where Read results ended
+	Calls  int
 }
 
 func (o *outcome) class() string {
@@ -105,13 +105,13 @@ func (h *builderHandler) val(v any) {
 	h.done()
 }
 
-func (h *builderHandler) Null()            { h.val(nil) }
-func (h *builderHandler) Bool(v bool)      { h.val(v) }
-func (h *builderHandler) Int(v int64)      { h.val(v) }
-func (h *builderHandler) Float(v float64)  { h.val(v) }
-func (h *builderHandler) Number(v string)  { h.val(jsonNumber(v)) }
-func (h *builderHandler) String(v string)  { h.val(v) }
-func (h *builderHandler) Key(k string)     { h.key, h.hasK = k, true }
+func (h *builderHandler) Null()           { h.val(nil) }
+func (h *builderHandler) Bool(v bool)     { h.val(v) }
+func (h *builderHandler) Int(v int64)     { h.val(v) }
+func (h *builderHandler) Float(v float64) { h.val(v) }
+func (h *builderHandler) Number(v string) { h.val(jsonNumber(v)) }
+func (h *builderHandler) String(v string) { h.val(v) }
+func (h *builderHandler) Key(k string)    { h.key, h.hasK = k, true }
 func (h *builderHandler) ObjectStart() {
 	if h.hasK {
 		h.hasK = false
